@@ -65,7 +65,7 @@ pub struct Script {
 const N_DIRS: usize = 999;
 
 impl Script {
-    fn first_volume(&self) -> usize {
+    pub fn first_volume(&self) -> usize {
         // oldest populated directory
         (self.start_volume + N_DIRS - self.run_length) % N_DIRS + 1
     }
@@ -268,8 +268,15 @@ impl World for PollWorld {
                 logged.status = status;
                 Self::error_doc(status)
             } else {
-                let mut objects: Vec<ListedObject> = (0..=self.frontier)
-                    .map(|lin| self.script.pos(lin))
+                // only volumes whose "SITE/<v>/" key prefix is compatible with the requested prefix are expanded
+                let last_order = self.frontier / 55;
+                let mut objects: Vec<ListedObject> = (0..=last_order)
+                    .map(|order| (self.script.first_volume() - 1 + order) % N_DIRS + 1)
+                    .filter(|v| {
+                        let dir = format!("{}/{}/", self.site, v);
+                        dir.starts_with(&prefix) || prefix.starts_with(&dir)
+                    })
+                    .flat_map(|v| (1..=55usize).map(move |sq| (v, sq)))
                     .flat_map(|(v, sq)| self.listed_one(v, sq))
                     .filter(|o| o.key.starts_with(&prefix))
                     .collect();
@@ -600,7 +607,9 @@ fn entry_strategy() -> impl Strategy<Value = Entry> {
 pub fn script_strategy() -> impl Strategy<Value = Script> {
     let volume = prop_oneof![2 => Just(999usize), 2 => Just(998usize), 1 => Just(997usize), 2 => Just(1usize), 1 => Just(2usize), 1 => Just(500usize), 3 => 1usize..=999];
     let seq = prop_oneof![4 => 50usize..=55, 2 => Just(55usize), 1 => Just(1usize), 3 => 1usize..=55];
-    let run = prop_oneof![6 => 3usize..=12, 1 => Just(1usize), 1 => Just(2usize)];
+    // mostly a short populated run; sometimes a widely populated bucket (a prefix such as SITE/1 then also
+    // matches SITE/10.., SITE/100..); at least three directories stay empty ahead of the uploader
+    let run = prop_oneof![6 => 3usize..=12, 1 => Just(1usize), 1 => Just(2usize), 2 => 100usize..=990];
     let entries = prop_oneof![1 => Just(0usize), 4 => 1usize..=8, 4 => 9usize..=30, 1 => 31usize..=70].prop_flat_map(|n| vec(entry_strategy(), n));
     let never_at = prop_oneof![3 => Just(None), 1 => any::<u16>().prop_map(Some)];
     let consumer = prop_oneof![
@@ -639,6 +648,7 @@ pub fn classify(s: &Script) -> CaseInfo {
         .class(delayed, "delayed-or-faulted-chunk")
         .class(natural.windows(2).any(|w| s.pos(w[0]).1 == 55 && s.pos(w[1]).1 > 1), "uploader-ahead-at-switch")
         .class(!s.last_modified_header, "no-last-modified-header")
+        .class(s.run_length >= 100, "widely-populated-bucket")
 }
 
 pub fn run(ctx: &Ctx, rep: &mut Report) {
@@ -646,12 +656,12 @@ pub fn run(ctx: &Ctx, rep: &mut Report) {
     rep.trust("loopback S3 simulator scripted per chunk (visibility by polling-attempt count, transient 500s, uploader-ahead at volume switches) and its request log; tokio's paused clock for the retry back-offs");
     rep.trust("reference: the delivery sequence the script allows (successor walk with the listed-last rule at volume switches)");
     rep.assume("interleavings are those expressible as request-count-driven visibility plus the two gated consumer races (stop / receiver dropped after delivery k); poll_chunks is single-task sequential code, so no other preemption point changes the history");
-    rep.assume("populated directories form a contiguous run of 1..12 volumes with increasing upload times; directories beyond the newest are empty until the uploader reaches them");
+    rep.assume("populated directories form a contiguous run of 1..12 (sometimes 100..990) volumes with increasing upload times; directories beyond the newest are empty until the uploader reaches them");
     rep.assume("liveness is bounded, not proved: a scenario that does not return within 60 s of real time is inconclusive (exit 2), never a violation");
 
     rep.prop(
         "scenarios",
-        "proptest (model-based, shrinks as one value): world script = start volume (999/998/997/1/2/500/random) x populated run 1..12 x start sequence (50..55 boosted) x per-chunk entries {delay 0/1/2 attempts or never, 0..2 transient 500s, 1..3 chunks already listed at a volume switch} x consumer {run to the missing chunk, stop after k in 0..12, drop receiver after k} x stats channel x Last-Modified header present/absent; oracle = history invariants against the script; non-trivial = >= 3 deliveries available and (>= 1 volume switch or >= 1 delayed/faulted chunk)",
+        "proptest (model-based, shrinks as one value): world script = start volume (999/998/997/1/2/500/random) x populated run 1..12 or 100..990 x start sequence (50..55 boosted) x per-chunk entries {delay 0/1/2 attempts or never, 0..2 transient 500s, 1..3 chunks already listed at a volume switch} x consumer {run to the missing chunk, stop after k in 0..12, drop receiver after k} x stats channel x Last-Modified header present/absent; oracle = history invariants against the script; non-trivial = >= 3 deliveries available and (>= 1 volume switch or >= 1 delayed/faulted chunk)",
         ctx.tier.pick(400, 20_000),
         script_strategy,
         classify,
@@ -662,6 +672,7 @@ pub fn run(ctx: &Ctx, rep: &mut Report) {
     rep.require_class("scenarios", "stop", 30);
     rep.require_class("scenarios", "consumer-dropped", 20);
     rep.require_class("scenarios", "delayed-or-faulted-chunk", 50);
+    rep.require_class("scenarios", "widely-populated-bucket", 20);
 
     let slow: Vec<_> = rep.violations.iter().filter(|v| v.sig == "inconclusive:watchdog").map(|v| v.detail.clone()).collect();
     if !slow.is_empty() {
